@@ -2,6 +2,7 @@ package harness
 
 import (
 	"fmt"
+	"os"
 	"strings"
 	"time"
 )
@@ -49,6 +50,13 @@ var connOffences = []connOffence{
 	}},
 	{Kind: "settings-init-window-big", Codes: []uint32{cFlowControl}, Ops: func(r *RNG) []Op {
 		return []Op{{Kind: "settings", Settings: [][2]uint32{{4, 1 << 31}}, Pad: -1, TableSize: -1}}
+	}},
+	// a stream window at exactly 2^31-1 (legal), then a larger SETTINGS_INITIAL_WINDOW_SIZE: the delta overflows it (RFC 7540 6.9.2)
+	{Kind: "settings-window-overflow", Codes: []uint32{cFlowControl}, OpensStream: true, Ops: func(r *RNG) []Op {
+		return []Op{{Kind: "settings", Settings: [][2]uint32{{4, 1000}}, Pad: -1, TableSize: -1},
+			{Kind: "headers", Fields: okHeaders, Pad: -1, TableSize: -1},
+			{Kind: "wupd", Incr: 1<<31 - 1 - 1000, Pad: -1, TableSize: -1},
+			{Kind: "settings", Settings: [][2]uint32{{4, uint32(Pick(r, 1001, 2000, 65535))}}, Pad: -1, TableSize: -1}}
 	}},
 	{Kind: "conn-wupd-zero", Codes: []uint32{cProtocol}, Ops: func(r *RNG) []Op { return []Op{{Kind: "wupd", OnConn: true, Incr: 0, Pad: -1, TableSize: -1}} }},
 	{Kind: "conn-wupd-overflow", Codes: []uint32{cFlowControl}, Ops: func(r *RNG) []Op {
@@ -118,6 +126,9 @@ func GenC10(r *RNG) *SrvPlan {
 	off := connOffences[r.Intn(len(connOffences))]
 	if r.Intn(6) == 0 {
 		off = offenceByKind("headers-lower-id") // the only one with streams left to finish: give it a share of its own
+	}
+	if k := os.Getenv("VERIF_C10_KIND"); k != "" {
+		off = offenceByKind(k) // development aid: pin the offence kind
 	}
 	ol := Lane{Name: "offence-" + off.Kind, Offender: off.Kind, After: -1, OpensStream: off.OpensStream, Ops: off.Ops(r)}
 	switch r.Intn(3) {
